@@ -76,11 +76,45 @@ func (c *Ctx) atomTerm(name, kind string, mk func(fa *FnAnalysis, st *State) *Te
 			return false, false
 		}
 		v, ok := fa.knownTerm(st, kind, t)
+		if !ok && kind == aTR && t.K == "B" {
+			// any spelling of the same test: decide the comparison by linear entailment
+			v, ok = c.decideCmp(fa, st, t)
+		}
 		if negate {
 			v = !v
 		}
 		return v, ok
 	}}
+}
+
+// decideCmp: truth of the comparison t (B with <, <= or ==) in state st by linear entailment.
+func (c *Ctx) decideCmp(fa *FnAnalysis, st *State, t *Term) (bool, bool) {
+	tt := c.eng.tt
+	switch t.S {
+	case "<":
+		if c.provesFact(fa, st, Fact{aTR, t, true}, nil) {
+			return true, true
+		}
+		if c.provesFact(fa, st, Fact{aTR, tt.mk(Term{K: "B", S: "<=", A: t.B, B: t.A}), true}, nil) {
+			return false, true
+		}
+	case "<=":
+		if c.provesFact(fa, st, Fact{aTR, t, true}, nil) {
+			return true, true
+		}
+		if c.provesFact(fa, st, Fact{aTR, tt.mk(Term{K: "B", S: "<", A: t.B, B: t.A}), true}, nil) {
+			return false, true
+		}
+	case "==":
+		if c.provesFact(fa, st, Fact{aTR, t, true}, nil) {
+			return true, true
+		}
+		if c.provesFact(fa, st, Fact{aTR, tt.mk(Term{K: "B", S: "<", A: t.A, B: t.B}), true}, nil) ||
+			c.provesFact(fa, st, Fact{aTR, tt.mk(Term{K: "B", S: "<", A: t.B, B: t.A}), true}, nil) {
+			return false, true
+		}
+	}
+	return false, false
 }
 
 func (c *Ctx) param(fa *FnAnalysis, k int) *Term {
